@@ -68,8 +68,7 @@ class SlotType(BitsInterface):
             data_type=ba2int(bits[4:8]),
             parity=ba2int(bits[8:]),
         )
-        if ba2int(bits[8:]) > 0:
-            # reserved data types 13-15 are folded to DataTypes.Reserved (12) by the constructor,
-            # parity must be judged on the received word, not on the folded one
-            slot_type.fec_parity_ok = Golay2087.check(bits)
+        # reserved data types 13-15 are folded to DataTypes.Reserved (12) and parity value 0 is (re)generated
+        # by the constructor, parity must be judged on the received word
+        slot_type.fec_parity_ok = Golay2087.check(bits)
         return slot_type
